@@ -20,7 +20,8 @@ def id_of(fid):
     if fid in _IDS:
         return _IDS[fid]
     if fid[0] == 'C' and fid[1] >= 1000:
-        return 'CoAP:Option Unknown(%d)' % (fid[1] - 1000)
+        from microschc.protocol.coap import CoAPFields
+        return f"{CoAPFields.OPTION_UNKNOWN}({fid[1] - 1000})"
     return 'X:other%d' % fid[1]
 
 
